@@ -158,7 +158,12 @@ class Field:
         node = self._Get_current_active_node()
         N_pg = self.groupElem.Get_N_pg(self.__matrixType)
         nPg, _, _ = N_pg.shape
-        array = FeArray.asfearray(N_pg[..., node].reshape(1, nPg, 1))
+        dof_n = self.__dof_n
+        if dof_n == 1:
+            return FeArray.asfearray(N_pg[..., node].reshape(1, nPg, 1))
+        # vector field: N_i on the active dof, 0 on the others
+        array = FeArray.zeros(1, nPg, dof_n, dtype=float)
+        array[..., self._Get_current_active_dof()] = N_pg[..., node].reshape(1, nPg)
         return array
 
     def dot(self, other):
